@@ -321,31 +321,38 @@ def transform_pieces(obj):
     return None
 
 
-def p_witness():
+def p_name(i, j, S):
+    return f'P{i}{j}' if S <= 4 else f'P{i}_{j}'
+
+
+def p_witness(S=4):
     def mk(i, j):
         def f(t, *rest):
             s = t + 0.37 + 0.01 * sum(rest)
-            raw = [0.05 + 0.9 * ((math.sin(12.9898 * s * (i * 4 + jj + 1)) * 43758.5453) % 1.0) for jj in range(4)]
+            raw = [0.05 + 0.9 * ((math.sin(12.9898 * s * (i * S + jj + 1)) * 43758.5453) % 1.0) for jj in range(S)]
             return raw[j] / sum(raw)
 
         return f
 
-    return {f'P{i}{j}': mk(i, j) for i in range(4) for j in range(4)}
+    return {p_name(i, j, S): mk(i, j) for i in range(S) for j in range(S)}
 
 
 def install_p_stub(subst):
-    """P_ij(t; model parameters) uninterpreted (the identity does not depend on P)."""
+    """P_ij(t; model parameters) uninterpreted (the identity does not depend on P); the number of states is the
+    model's own (4 nucleotides, 20 amino acids, 60..64 codons)."""
+    S = int(subst.frequencies.shape[-1])
+    cur().dag.uf_eval.update(p_witness(S))
 
     def p_t(branch_lengths):
         d = cur().dag
         extra = []
-        for nm in ('kappa', 'rates', 'frequencies'):
+        for nm in ('kappa', 'alpha', 'beta', 'rates', 'frequencies'):
             v = getattr(subst, nm, None)
             if isinstance(v, SymTensor):
                 extra += v._ids.reshape(-1).tolist()
         ids = branch_lengths._ids
-        out = [[[d.uf(f'P{i}{j}', b, *extra) for j in range(4)] for i in range(4)] for b in ids.reshape(-1).tolist()]
-        return from_ids(torch.tensor(out, dtype=torch.int64).reshape(tuple(ids.shape) + (4, 4)))
+        out = [[[d.uf(p_name(i, j, S), b, *extra) for j in range(S)] for i in range(S)] for b in ids.reshape(-1).tolist()]
+        return from_ids(torch.tensor(out, dtype=torch.int64).reshape(tuple(ids.shape) + (S, S)))
 
     subst.p_t = p_t
 
@@ -625,7 +632,7 @@ def replay_density(js, plan, vals):
     return mismatch, detail, lds
 
 
-def structural_diff(plan, unit):
+def structural_diff(plan, unit, const_zero=()):
     inc = plan['included'] or []
     exp = plan['expected']
     items = []
@@ -638,6 +645,8 @@ def structural_diff(plan, unit):
         elif c > 1:
             items.append(('jacobian-counted-twice', T))
     for T in sorted(set(inc)):
+        if T in const_zero:
+            continue  # non-bijective deterministic function reporting the constant 0: listing it changes nothing
         if T not in exp:
             items.append(('jacobian-for-parameter-without-prior', T))
         elif T in unit and inc.count(T) > 1:
@@ -965,6 +974,16 @@ def solver_stage(sub, groups, label, js, plan, dic0, tr):
             tf, x_act, rep_act = pcs
             state['tf_classes'].add(type(tf))
             R[T] = flat_ids(d, rep_act)
+            if not getattr(tf, 'bijective', False) and all(d.ops[r] == 'const' and d.vals[r] == 0 for r in R[T]):
+                # a deterministic re-parameterisation that is no change of variables (ConvexCombinationTransform: scale
+                # invariant, no inverse) and reports 0: a constant term that may be listed or not; there is no square
+                # determinant to compare it with
+                unit.add(T)
+                state.setdefault('const_zero', set()).add(T)
+                tr.assumptions.add('transforms declared non-bijective (torch Transform.bijective False, e.g. ConvexCombinationTransform) that '
+                                   'report log|det J| = 0 are treated as deterministic functions: their term is the constant 0 and carries no '
+                                   'determinant obligation')
+                continue
             lm = lemma_for(t, T, tf, x_act)
             if lm is None:
                 continue
@@ -1061,7 +1080,7 @@ def solver_stage(sub, groups, label, js, plan, dic0, tr):
     unit = state.get('unit', set())
     for cls in state['tf_classes']:
         tr.fn(cls._call, cls.log_abs_det_jacobian)
-    diff = structural_diff(plan, unit)
+    diff = structural_diff(plan, unit, state.get('const_zero', set()))
     tr.sample({'configuration': label, 'handed': plan['handed'], 'runnable': plan['runnable'], 'EXPECTED (from the JSON walk)': sorted(plan['expected']),
                'listed in handed density': plan['included'], 'unit-Jacobian transforms': sorted(unit),
                'priors': plan['priors'], 'regions': out.regions, 'coverage certificate': out.closed, 'path conditions valid everywhere': state.get('valid_pcs', 0),
@@ -1229,6 +1248,20 @@ def full_grid():
     return out
 
 
+# models outside the full factorial: every sub-command x {time tree + constant coalescent, unrooted tree}
+EXTRA_MODELS = ('K80', 'SYM', 'SRD06', 'LG', 'WAG', 'MG94')
+
+
+def extra_model_configs(subs, models=EXTRA_MODELS):
+    out = []
+    for sub in subs:
+        for model in models:
+            extra = (('--genetic_code', '0'),) if model == 'MG94' else ()
+            out.append((sub, groups_for(model, 1, False, 'strict', 'ratio', 'constant', extra), ()))
+            out.append((sub, groups_for(model, 4 if model != 'MG94' else 1, model not in ('MG94',), None, 'ratio', None, extra), ()))
+    return out
+
+
 def init_configs(subs):
     out = []
     for sub in subs:
@@ -1370,6 +1403,10 @@ def quick_configs():
         ('hmc', groups_for('HKY', 1, False, 'strict', 'ratio', 'constant',
                            (('--adapt_mass_matrix',), ('--adapt_step_size', 'dualaveraging'), ('--warmup', '100'), ('--mass_matrix', 'dense')))),
         ('advi', groups_for('HKY', 1, False, 'strict', 'ratio', 'constant', (('-q', 'fullrank'),))),
+        # models outside the core grid
+        ('hmc', groups_for('K80', 1, False, 'strict', 'ratio', 'constant')),
+        ('advi', groups_for('SRD06', 1, False, 'strict', 'ratio', 'constant')),
+        ('mcmc', groups_for('LG', 1, False, None, 'ratio', None)),
     ]
     return [(s, g, ()) for s, g in q]
 
@@ -1383,7 +1420,7 @@ def tasks_for(tier, tmp):
         cfgs = quick_configs() + init_configs(SUBS) + option_configs(SUBS)
         exe = []
     else:
-        cfgs = full_grid() + init_configs(SUBS) + option_configs(SUBS)
+        cfgs = full_grid() + extra_model_configs(SUBS) + init_configs(SUBS) + option_configs(SUBS)
         exe = [(s, groups_for('HKY', 4, True, 'strict', 'ratio', 'skygrid')) for s in SUBS]
     ts = [('cfg', sub, groups, wants, tmp, True) for sub, groups, wants in cfgs]
     if os.environ.get('C19_ONLY') != 'options':
@@ -1401,7 +1438,8 @@ def body(chk):
                        'density and gradient and requested initial values are concrete by-products')
     chk.total.assumptions |= {
         'the quantifier over the CLI option space is NOT decided by a solver: the configurations listed in the evidence are '
-        'enumerated explicitly (sub-command x model x categories x invariant x clock x node-height parameterisation x coalescent, '
+        'enumerated explicitly (sub-command x model {JC69,HKY,GTR} x categories x invariant x clock x node-height parameterisation x coalescent; '
+        'K80, SYM, SRD06, LG, WAG, MG94 with a strict clock + constant coalescent and with an unrooted tree; '
         '3 taxa with sampling dates 2010/2011/2012); options outside the grid are outside the claim',
         'EXPECTED = transforms between the random variable of a prior found in "joint" (x of Distribution/CTMCScale/GMRF, the tree of '
         'a coalescent or tree prior) and the base parameters; a conditioning argument (theta of a coalescent, hyper-parameters) is '
